@@ -141,6 +141,7 @@ func (p *prop) runModule(c core.Case, w *core.Worker, res *core.Result, r *rand.
 	}
 
 	deferSeen := map[string]int{}
+	docLookupsOnForeignTwins := 0
 	type deferInfo struct{ pkg, gen, id string }
 	var registered []deferInfo
 	var deferFileViolations []string
@@ -152,6 +153,20 @@ func (p *prop) runModule(c core.Case, w *core.Worker, res *core.Result, r *rand.
 			pkg := c.Package("").Pkg().Path()
 			tn := named.Obj().Name()
 			c.RenderT("// @g saw @n\nconst _ = \"@g|@n\"\n\n", snippet.Arg("g", snippet.Block(gn)), snippet.Arg("n", snippet.Block(tn)))
+			// like real generators that look at the types of fields: ask for the documentation of SAME-NAMED types of
+			// the packages this one imports (their tags differ) and of the type's own methods - looking at somebody
+			// else's declaration must not influence which of this package's types are dispatched
+			for ip, q := range c.Package("").Imports() {
+				if q == nil || !strings.HasPrefix(ip, "example.com/c06/") {
+					continue
+				}
+				for name, t := range q.Types() {
+					if c.Package("").Type(name) != nil {
+						core.Guard(func() { c.Doc(t) })
+						docLookupsOnForeignTwins++
+					}
+				}
+			}
 			nd := int(h(gn, tn, "defers") % 4)
 			for k := 0; k < nd; k++ {
 				id := fmt.Sprintf("%s/%s/%s/%d", pkg, gn, tn, k)
@@ -331,6 +346,7 @@ func (p *prop) runModule(c core.Case, w *core.Worker, res *core.Result, r *rand.
 			res.Fail("defer-order", "defer-after-write", fmt.Sprintf("deferred callback %s ran after a file of package %s was written", e.Name, e.Pkg), nil)
 		}
 	}
+	res.Count("doc_lookups_on_same_named_types_of_imported_packages", int64(docLookupsOnForeignTwins))
 	for _, v := range deferFileViolations {
 		res.Fail("defer-file-untouched", "defer", v, nil)
 	}
